@@ -74,7 +74,7 @@ def eval_grid(case, rng):
     ep = tcpcap.random_ep(rng)
     segs = tcpcap.segments(conn.events, ep, tcpcap.cut_at(pts))
     fl = scene.tls_flow(conn, ep, segs)
-    items = scene.stamp(scene.merge([fl], rng, "concat"), rng)
+    items = scene.stamp(scene.merge([fl], rng, "concat"), rng, rng.choice(["plain", "plain", "zero", "coarse", "dense"]))
     res, files, argv = e2e.run_capture(scene.capture(items), scene.keylog_text([fl], rng))
     out = {"cls": ["grid", n, k, d, "v6" if ep.v6 else "v4"], "tags": [f"grid:k{k}"], "sample": {"case": case["id"], "suite": name, "version": suites.VNAME[v], "n": n, "k": k_eff, "dir": d}}
     fail = e2e.run_failed(res)
@@ -130,7 +130,7 @@ def eval_any(case, rng):
             fr = bytearray(items[i].frame)
             fr[rng.randrange(54 if len(fr) > 60 else 14, len(fr))] ^= 1 << rng.randrange(8)
             items[i] = scene.Item(bytes(fr), conn=items[i].conn, dir=items[i].dir, seg=items[i].seg, tag=items[i].tag)
-    scene.stamp(items, rng, rng.choice(scene.TS_STYLES))
+    scene.stamp(items, rng, rng.choice(scene.TS_STYLES + (["coarse", "coarse"] if not any(f.kind == "quic" for f in flows) else [])))
     lines = [l for f in flows for l in f.keylog]
     if fault == "nokeys":
         lines = []
